@@ -43,6 +43,18 @@ def gen_case(rng, tier, index):
     case["reader"] = rng.random() < 0.5
     case["reader_at"] = rng.randrange(0, 120)
     case["stride"] = 8 if hist["structure"]["fmt"] == "tfrec" else 1
+    # in 40% of the cases the process is really killed at a seeded instant
+    # (nothing it does afterwards reaches the disk) and a new process writes
+    # one more session on what is left
+    if rng.random() < 0.4:
+        case["crash_at"] = rng.choice([1, 2, 3, 5, 8]) if rng.random() < 0.3 \
+            else rng.randrange(1, 200)
+        ids = iter(range(500000, 500100))
+        after = dsgen.gen_session(rng, ids, hist["structure"]["eps"],
+                                  ("root", "root", "sub", "multi"),
+                                  hist["splits"], ("none",), 2)
+        after["reopen"] = True
+        case["after"] = after
     return case
 
 
@@ -74,7 +86,8 @@ def reach(agg):
                  "instant_right_after_rename", "torn_write_instants",
                  "crashing_kind_root", "crashing_kind_sub",
                  "crashing_kind_multi", "crashing_session_first",
-                 "crashing_session_continued", "reader_started_mid_session"):
+                 "crashing_session_continued", "reader_started_mid_session",
+                 "process_killed", "session_after_restart_completed"):
         if not p.get(name):
             need.append(f"probe {name} never hit")
     return need
